@@ -92,6 +92,91 @@ var genesisMutations = []string{
 	"none", "id-eq-next", "id-gt-next", "next-lower", "dup-auction", "drop-auction", "lot-negative", "lot-zero", "lot-changed",
 	"bid-negative", "bid-changed", "end-zero", "end-after-max", "max-end-zero", "debt-negative", "debt-changed", "maxbid-negative",
 	"weights-empty", "weight-negative", "weights-zero-sum", "weights-length-mismatch", "return-address-empty",
+	// the bank side: the genesis is the unchanged export, the auction module account's balance is changed
+	// before InitGenesis (which compares it with the coins the genesis auctions account for)
+	"bank-extra-lot-unit", "bank-extra-debt-unit", "bank-extra-unheld-denom", "bank-missing-unit", "bank-extra-and-missing",
+}
+
+// bankPerturb changes the auction module account's balance on ctx (a discarded branch) and returns the
+// (denom index, amount) pairs applied; nil when the perturbation does not apply to this state.
+func (w *World) bankPerturb(ctx sdk.Context, mut string, list []auctiontypes.GenesisAuction, sel int) [][2]int64 {
+	held := sdk.NewCoins()
+	lots, debts := []string{}, []string{}
+	for _, a := range list {
+		held = held.Add(a.GetModuleAccountCoins()...)
+		if _, isDebt := a.(*auctiontypes.DebtAuction); !isDebt && a.GetLot().Amount.IsPositive() {
+			lots = append(lots, a.GetLot().Denom)
+		}
+		switch x := a.(type) {
+		case *auctiontypes.DebtAuction:
+			if x.CorrespondingDebt.Amount.IsPositive() {
+				debts = append(debts, x.CorrespondingDebt.Denom)
+			}
+		case *auctiontypes.CollateralAuction:
+			if x.CorrespondingDebt.Amount.IsPositive() {
+				debts = append(debts, x.CorrespondingDebt.Denom)
+			}
+		}
+	}
+	dIdx := func(dn string) int64 {
+		for i, x := range denoms {
+			if x == dn {
+				return int64(i)
+			}
+		}
+		return -1
+	}
+	add := func(dn string, amt int64) bool {
+		return w.tApp.FundModuleAccount(ctx, auctiontypes.ModuleName, sdk.NewCoins(sdk.NewInt64Coin(dn, amt))) == nil
+	}
+	sub := func(dn string, amt int64) bool {
+		return w.tApp.GetBankKeeper().SendCoinsFromModuleToAccount(ctx, auctiontypes.ModuleName, w.addrs[0], sdk.NewCoins(sdk.NewInt64Coin(dn, amt))) == nil
+	}
+	amt := int64(1)
+	if sel%3 == 2 {
+		amt = 1 + int64(sel%1000)
+	}
+	switch mut {
+	case "bank-extra-lot-unit":
+		if len(lots) > 0 {
+			dn := lots[sel%len(lots)]
+			if add(dn, amt) {
+				return [][2]int64{{dIdx(dn), amt}}
+			}
+		}
+	case "bank-extra-debt-unit":
+		if len(debts) > 0 {
+			dn := debts[sel%len(debts)]
+			if add(dn, amt) {
+				return [][2]int64{{dIdx(dn), amt}}
+			}
+		}
+	case "bank-extra-unheld-denom": // a denom no genesis auction accounts for (also with no auction at all)
+		for k := range denoms {
+			dn := denoms[(sel+k)%len(denoms)]
+			if held.AmountOf(dn).IsZero() {
+				if add(dn, amt) {
+					return [][2]int64{{dIdx(dn), amt}}
+				}
+				break
+			}
+		}
+	case "bank-missing-unit":
+		if len(held) > 0 {
+			c := held[sel%len(held)]
+			if sub(c.Denom, 1) {
+				return [][2]int64{{dIdx(c.Denom), -1}}
+			}
+		}
+	case "bank-extra-and-missing": // one unit more of one denom, one less of another: the totals' count is unchanged
+		if len(held) > 1 {
+			a, b := held[sel%len(held)], held[(sel+1)%len(held)]
+			if add(a.Denom, 1) && sub(b.Denom, 1) {
+				return [][2]int64{{dIdx(a.Denom), 1}, {dIdx(b.Denom), -1}}
+			}
+		}
+	}
+	return nil
 }
 
 // mutate one auction (a copy) of the export; returns the perturbed next id and auction list
@@ -240,18 +325,31 @@ func (w *World) probe(mut string, i int, cnt *Counters) (string, *fail) {
 	}
 	valid := gs.Validate() == nil
 	cls := ClassOk
+	var bank [][2]int64
+	ictx, _ := w.ctx.CacheContext() // never written back
+	if strings.HasPrefix(mut, "bank-") {
+		bank = w.bankPerturb(ictx, mut, list, i)
+	}
 	func() {
 		defer func() {
 			if r := recover(); r != nil {
 				cls = ClassPanic
 			}
 		}()
-		ictx, _ := w.ctx.CacheContext()
 		WipeStore(ictx, key)
 		auction.InitGenesis(ictx, w.k, w.tApp.GetBankKeeper(), w.tApp.GetAccountKeeper(), gs)
 	}()
 	if cnt != nil {
 		cnt.Inc(fmt.Sprintf("auction/probe:%s:valid=%v:init=%s", mut, valid, cls))
+		if len(bank) > 0 {
+			cnt.Inc("auction/probe:bank-perturbed:init=" + cls.String())
+		}
+	}
+	bankCoq := make([]string, len(bank))
+	bankTxt := make([]string, len(bank))
+	for k, b := range bank {
+		bankCoq[k] = fmt.Sprintf("(%s, %s)", Nat(int(b[0])), Zi(b[1]))
+		bankTxt[k] = fmt.Sprintf("%+d%s", b[1], denoms[b[0]])
 	}
 	as := make([]string, len(list))
 	for k, a := range list {
@@ -266,7 +364,18 @@ func (w *World) probe(mut string, i int, cnt *Counters) (string, *fail) {
 		f = mk("auction-genesis-verdicts:"+mut, "auction-probe-verdict-"+mut,
 			"perturbation %s (index %d, %s auction) of the exported genesis: Validate passes=%v (expected %v), InitGenesis ok=%v (expected %v)", mut, i, kind, valid, want[0], cls == ClassOk, want[1])
 	}
-	return fmt.Sprintf("GProbe (mkGen %s %s) %s %s", Zi(int64(next)), List(as), Bool(valid), cls.Coq()), f
+	genCoq := fmt.Sprintf("(mkGen %s %s)", Zi(int64(next)), List(as))
+	// stated on the implementation alone: a genesis state GenesisState.Validate refuses is never imported, and the
+	// unchanged export is never imported over a module account that holds anything else than the auctions' coins
+	if !valid && cls == ClassOk {
+		f = mk("invalid-genesis-imported:auction:"+mut, "invalid-genesis-imported:auction:"+mut,
+			"GenesisState.Validate refuses this genesis state (perturbation %s, index %d, %s auction, of a real export) but InitGenesis on an emptied store imports it: %s", mut, i, kind, genCoq)
+	}
+	if len(bank) > 0 && cls == ClassOk {
+		f = mk("genesis-imported-over-unaccounted-module-balance:auction:"+mut, "genesis-imported-over-unaccounted-module-balance:auction:"+mut,
+			"the auction module account's balance was changed by %s before InitGenesis of the unchanged export %s: the module account no longer holds exactly what the genesis auctions account for, but InitGenesis accepts", strings.Join(bankTxt, ","), genCoq)
+	}
+	return fmt.Sprintf("GProbe %s %s %s %s", genCoq, List(bankCoq), Bool(valid), cls.Coq()), f
 }
 
 // genesisExpect: what GenesisState.Validate / InitGenesis must say about a perturbed export (validate passes, init
@@ -408,7 +517,11 @@ func GenesisRun(seed uint64, idx, n int, params *Params, ops []Op, cnt *Counters
 				}
 			}
 			if f != nil {
-				fl = &Failure{History: idx, Step: i, Predicate: f.pred, Signature: "C14a:auction-" + strings.TrimPrefix(f.sig, "auction-"), Detail: f.detail}
+				sig := "C14a:auction-" + strings.TrimPrefix(f.sig, "auction-")
+				if strings.HasPrefix(f.sig, "invalid-genesis-imported:") || strings.HasPrefix(f.sig, "genesis-imported-over-") {
+					sig = f.sig
+				}
+				fl = &Failure{History: idx, Step: i, Predicate: f.pred, Signature: sig, Detail: f.detail}
 			}
 		}
 		prev = after
@@ -460,5 +573,5 @@ func GenesisReplay(raw json.RawMessage, cnt *Counters) (GenesisPartOut, error) {
 var GenesisWanted = []string{
 	"auction/reimport:collateral-reverse-phase-with-bid", "auction/reimport:collateral-forward-phase-with-bid",
 	"auction/reimport:debt-with-bid", "auction/reimport:surplus-with-bid", "auction/reimport:several-auctions",
-	"auction/reimport:after-closes",
+	"auction/reimport:after-closes", "auction/probe:bank-perturbed:init=panic",
 }
